@@ -52,20 +52,23 @@ def _g(v):
 
 
 def family(fam, x, m0, total_time=T):
-    """Returns dict(rates, comps=[(name, formula_text, {el: coef}, m0, parms)], exact(t, init)->{name: m}, law)."""
+    """Returns dict(rates, comps=[(name, formula_text, {el: coef}, m0, parms)], law,
+    advance(state, dt, t0) -> {name: m}) where state = {"m": {name: amount}, "Na": moles of Na in the solution} is the
+    state at the start of one KINETICS calculation, dt its duration and t0 the time already elapsed (only the
+    explicit-time law looks at t0)."""
     TT = total_time
     if fam == "zero":
         r = 0.5 * x * m0 / TT                       # x = 0.01: 0.5 % consumed, 1: half, 10: exhausted at T/5
         return {"law": "autonomous",
                 "rates": "zero\n -start\n 10 rate = PARM(1)\n 20 IF (M <= 0) THEN rate = 0\n 30 SAVE rate * TIME\n -end\n",
                 "comps": [("zero", "NaCl 1", {"Na": 1, "Cl": 1}, m0, [r])],
-                "exact": lambda t, init: {"zero": kx.zero_order(m0, r, t)}}
+                "advance": lambda st, dt, t0: {"zero": kx.zero_order(st["m"]["zero"], r, dt)}}
     if fam == "first":
         k = x / TT
         return {"law": "autonomous",
                 "rates": "first\n -start\n 10 rate = PARM(1) * M\n 20 SAVE rate * TIME\n -end\n",
                 "comps": [("first", "NaCl 1", {"Na": 1, "Cl": 1}, m0, [k])],
-                "exact": lambda t, init: {"first": kx.first_order(m0, k, t)}}
+                "advance": lambda st, dt, t0: {"first": kx.first_order(st["m"]["first"], k, dt)}}
     if fam == "two":
         ka, kb = x / TT, 3.0 * x / TT
         mb = 0.5 * m0
@@ -73,7 +76,7 @@ def family(fam, x, m0, total_time=T):
                 "rates": "decA\n -start\n 10 rate = PARM(1) * M\n 20 SAVE rate * TIME\n -end\n"
                          "decB\n -start\n 10 rate = PARM(1) * M\n 20 SAVE rate * TIME\n -end\n",
                 "comps": [("decA", "NaCl 1", {"Na": 1, "Cl": 1}, m0, [ka]), ("decB", "KCl 1", {"K": 1, "Cl": 1}, mb, [kb])],
-                "exact": lambda t, init: {"decA": kx.first_order(m0, ka, t), "decB": kx.first_order(mb, kb, t)}}
+                "advance": lambda st, dt, t0: {"decA": kx.first_order(st["m"]["decA"], ka, dt), "decB": kx.first_order(st["m"]["decB"], kb, dt)}}
     if fam == "chain":
         k1, k2 = x / TT, 2.5 * x / TT
         b0 = 0.25 * m0
@@ -81,21 +84,21 @@ def family(fam, x, m0, total_time=T):
                 "rates": "chA\n -start\n 10 rate = PARM(1) * M\n 20 SAVE rate * TIME\n -end\n"
                          "chB\n -start\n 10 rate = PARM(2) * M - PARM(1) * KIN(\"chA\")\n 20 SAVE rate * TIME\n -end\n",
                 "comps": [("chA", "NaCl 1", {"Na": 1, "Cl": 1}, m0, [k1, k2]), ("chB", "NaCl 1", {"Na": 1, "Cl": 1}, b0, [k1, k2])],
-                "exact": lambda t, init: dict(zip(("chA", "chB"), kx.chain(m0, b0, k1, k2, t)))}
+                "advance": lambda st, dt, t0: dict(zip(("chA", "chB"), kx.chain(st["m"]["chA"], st["m"]["chB"], k1, k2, dt)))}
     if fam == "approach":
         k = x / TT
         s = 0.5 * m0
         return {"law": "autonomous",
                 "rates": "appr\n -start\n 10 rate = PARM(1) * (PARM(2) - TOT(\"Na\") * TOT(\"water\"))\n 20 SAVE rate * TIME\n -end\n",
                 "comps": [("appr", "NaCl 1", {"Na": 1, "Cl": 1}, m0, [k, s])],
-                "exact": lambda t, init: {"appr": kx.approach(m0, init["Na"], s, k, t)[0]}}
+                "advance": lambda st, dt, t0: {"appr": kx.approach(st["m"]["appr"], st["Na"], s, k, dt)[0]}}
     if fam == "tdep":
         b = 2.0 / TT
         r0 = 0.25 * x * m0 / TT                     # consumed at T: r0 (T + b T^2/2) = 2 r0 T = x m0 / 2
         return {"law": "explicit-time",
                 "rates": "tdep\n -start\n 10 rate = PARM(1) * (1 + PARM(2) * TOTAL_TIME)\n 20 IF (M <= 0) THEN rate = 0\n 30 SAVE rate * TIME\n -end\n",
                 "comps": [("tdep", "NaCl 1", {"Na": 1, "Cl": 1}, m0, [r0, b])],
-                "exact": lambda t, init: {"tdep": kx.time_linear(m0, r0, b, t)}}
+                "advance": lambda st, dt, t0: {"tdep": max(st["m"]["tdep"] - r0 * (dt + 0.5 * b * ((t0 + dt) ** 2 - t0 ** 2)), 0.0)}}
     raise KeyError(fam)
 
 
@@ -113,6 +116,12 @@ SHIPPED = {
 
 
 # ------------------------------------------------------------------------------------------------ input text
+# A simulation that defines a solution and KINETICS implicitly defines a batch reaction (manual, USE; KINETICS -steps
+# defaults to 1 s) whose result is kept in the KINETICS entity; "USE solution none" is the manual's way to have none,
+# so that the reactants enter the first shift with their initial amounts.
+NO_BATCH = "USE solution none\n"
+
+
 def expected_times(ctx, div, total):
     if div == "L":
         return [f * total for f in LIST_CUM]
@@ -158,11 +167,11 @@ def build_input(case, div, incr, integ, bsm):
     dt = _g(total / n)
     if ctx == "adv":
         sol0 = sol_block.replace("SOLUTION 1", "SOLUTION 0-1")
-        return (head + rates + sol0 + "KINETICS 1\n" + kin + itxt + up +
+        return (head + rates + sol0 + NO_BATCH + "KINETICS 1\n" + kin + itxt + up +
                 "ADVECTION\n -cells 1\n -shifts %d\n -time_step %s\n -punch_cells 1\n -punch_frequency 1\n -print_frequency 1000\nEND\n" % (n, dt)), names
     if ctx == "trn":
         sol0 = sol_block.replace("SOLUTION 1", "SOLUTION 0-3")
-        return (head + rates + sol0 + "KINETICS 1-2\n" + kin + itxt + up +
+        return (head + rates + sol0 + NO_BATCH + "KINETICS 1-2\n" + kin + itxt + up +
                 "TRANSPORT\n -cells 2\n -shifts %d\n -time_step %s\n -lengths 1\n -dispersivities 0.05\n -flow_direction forward\n"
                 " -boundary_conditions flux flux\n -punch_cells 1-2\n -punch_frequency 1\n -print_frequency 1000\nEND\n" % (n, dt)), names
     raise KeyError(ctx)
@@ -215,46 +224,82 @@ def reference(case, div, incr):
 
 
 # ------------------------------------------------------------------------------------------------ oracle
+def expected_rows(f, case, r, incr):
+    """Closed-form amounts for every reported row of one run, *per KINETICS calculation* (the statement's unit):
+    the exact solution is started from the state the calculation itself started from and advanced over the
+    calculation's own time span -
+      batch, INCREMENTAL_REACTIONS false: every step integrates anew from time zero (manual, KINETICS -steps), so the
+        start state is the initial one and the span is the cumulative time;
+      batch, INCREMENTAL_REACTIONS true / ADVECTION / TRANSPORT: a step (shift) continues from the result of the
+        previous one, so the start state is the previously *reported* state of the same cell and the span one step.
+    Returns a list parallel to r["rows"] of {name: exact amount}."""
+    m_init = {c[0]: c[3] for c in f["comps"]}
+    out = []
+    prev = {}          # cell -> (t, state)
+    for row in r["rows"]:
+        cell = row["cell"]
+        if case["ctx"] == "batch" and not incr:
+            t0, st = 0.0, {"m": m_init, "Na": r["init"]["Na"]}
+        else:
+            t0, st = prev.get(cell, (0.0, {"m": m_init, "Na": r["init"]["Na"]}))
+        out.append(f["advance"](st, row["t"] - t0, t0))
+        prev[cell] = (row["t"], {"m": dict(row["m"]), "Na": row["sol"]["Na"]})
+    return out
+
+
 def judge(case, runs, refs):
     fam, ctx, tol, integ = case["fam"], case["ctx"], case["tol"], case["integ"]
     lim = FACTOR * tol
     lab = integ_label(integ)
     shipped = fam in SHIPPED
-    law = fam if shipped else family(fam, case["x"], case["m0"])["law"]
-    tag = "law=%s ctx=%s integrator=%s tol=%s" % (law, ctx, lab, _g(tol))
+    f = None if shipped else family(fam, case["x"], case["m0"])
+    # the explicit-time law is outside the statement's list (zero-order, first-order, coupled linear) and the manual
+    # does not define the value of TOTAL_TIME inside an integration interval: everything it shows is a diagnostic
+    diag_only = (f is not None and f["law"] == "explicit-time")
+    tag = "rate=%s ctx=%s integrator=%s tol=%s" % (fam, ctx, lab, _g(tol))
     where = "family=%s x=%s m0=%s integ=%s bad_step_max=%s" % (fam, case.get("x"), case.get("m0"), integ, case["bsm"])
     problems, diags = [], []
 
     def add(fp, msg):
-        problems.append((fp, msg + " [" + where + "]"))
+        if diag_only:
+            diags.append("explicit-time law (not judged): " + fp + ": " + msg + " [" + where + "]")
+        else:
+            problems.append((fp, msg + " [" + where + "]"))
 
-    f = None if shipped else family(fam, case["x"], case["m0"])
+    exp_cache = {}
 
-    def exact_ok(r):
+    def expected(key, r):
+        if key not in exp_cache:
+            exp_cache[key] = expected_rows(f, case, r, key[2])
+        return exp_cache[key]
+
+    def exact_ok(key, r):
         """True if every reported amount of the run is within the limit of the closed form (or there is none)."""
         if f is None:
             return True
-        return all(abs(m - f["exact"](row["t"], r["init"])[name]) <= lim for row in r["rows"] for name, m in row["m"].items())
+        return all(abs(m - ex[name]) <= lim for row, ex in zip(r["rows"], expected(key, r)) for name, m in row["m"].items())
 
     for (div, incr), r in sorted(runs.items()):
         if not r["ok"]:
             continue
         rid = "division=%s incremental=%s" % (div, incr)
-        for row in r["rows"]:
+        exs = expected(("run", div, incr), r) if f is not None else [None] * len(r["rows"])
+        for row, ex in zip(r["rows"], exs):
             for name, m in row["m"].items():
                 # --- amounts never negative
                 if m < 0:
                     add("negative-amount " + tag, "%s: reactant %s = %r < 0 at t=%r" % (rid, name, m, row["t"]))
-                # --- closed form
-                if f is not None:
-                    ex = f["exact"](row["t"], r["init"])[name]
-                    if not abs(m - ex) <= lim:
-                        add("exact-solution-miss " + tag, "%s: %s(t=%r) = %r, closed form %r, error %.3g = %.1f x tol (limit 100 x tol = %g)" % (
-                            rid, name, row["t"], m, ex, m - ex, abs(m - ex) / tol, lim))
+                # --- closed form of the calculation that produced this row
+                if ex is not None and not abs(m - ex[name]) <= lim:
+                    e = abs(m - ex[name]) / tol
+                    add("exact-solution-miss %s error=%s" % (tag, decade(e)),
+                        "%s: %s(t=%r, cell %s) = %r, closed form of this calculation %r, error %.3g = %.1f x tol (limit 100 x tol = %g)" % (
+                            rid, name, row["t"], row["cell"], m, ex[name], m - ex[name], e, lim))
             # time read-outs are not part of the statement: diagnostics only
             if abs(row["time"] - row["t"]) > 1e-9 * max(1.0, row["t"]) or abs(row["tt"] - row["t"]) > 1e-9 * max(1.0, row["t"]):
                 diags.append("time read-out differs from the step list: -time %r TOTAL_TIME %r expected %r (%s %s)" % (row["time"], row["tt"], row["t"], rid, where))
-        # --- transfer: what left the reactants arrived in the solution (batch: cumulative; ADVECTION: per shift)
+        # --- transfer: what left the reactants arrived in the solution (batch: cumulative; ADVECTION: per shift, the
+        #     cell receives the unreacted inflow solution 0 = initial solution at every shift)
         if f is not None and ctx in ("batch", "adv"):
             coefs = {c[0]: c[2] for c in f["comps"]}
             m_init = {c[0]: c[3] for c in f["comps"]}
@@ -262,8 +307,9 @@ def judge(case, runs, refs):
             for row in r["rows"]:
                 for el in ("Na", "Cl", "K"):
                     base = m_init if ctx == "batch" else prev
+                    sol0 = r["init"]
                     lost = sum((base[n] - row["m"][n]) * coefs[n].get(el, 0) for n in coefs)
-                    gained = row["sol"][el] - r["init"][el]
+                    gained = row["sol"][el] - sol0[el]
                     inv = abs(row["sol"][el]) + sum(abs(row["m"][n]) * coefs[n].get(el, 0) for n in coefs)
                     if not abs(gained - lost) <= REL_TRANSFER * inv:
                         add("transfer-mismatch element=%s %s" % (el, tag), "%s: solution gained %r mol %s, reactants lost %r x formula (t=%r)" % (rid, gained, el, lost, row["t"]))
@@ -272,10 +318,10 @@ def judge(case, runs, refs):
     def final(r):
         return [row for row in r["rows"] if row["step"] == r["rows"][-1]["step"]]
 
-    def cmp_rows(ra, rb, fp, what, all_rows):
+    def cmp_rows(ka, ra, kb, rb, fp, what, all_rows):
         # a run that already misses its closed form is reported under that (primary) relation only: the invariance
         # relations are evaluated between runs that individually satisfy it, so one failure does not get four names
-        if not (exact_ok(ra) and exact_ok(rb)):
+        if not (exact_ok(ka, ra) and exact_ok(kb, rb)):
             return
         rows_a = ra["rows"] if all_rows else final(ra)
         rows_b = rb["rows"] if all_rows else final(rb)
@@ -285,7 +331,8 @@ def judge(case, runs, refs):
             for name in a["m"]:
                 d = a["m"][name] - b["m"][name]
                 if not abs(d) <= lim:
-                    add(fp, "%s: %s(t=%r) = %r vs %r, difference %.3g = %.1f x tol (limit 100 x tol)" % (what, name, a["t"], a["m"][name], b["m"][name], d, abs(d) / tol))
+                    add("%s difference=%s" % (fp, decade(abs(d) / tol)),
+                        "%s: %s(t=%r) = %r vs %r, difference %.3g = %.1f x tol (limit 100 x tol)" % (what, name, a["t"], a["m"][name], b["m"][name], d, abs(d) / tol))
                     return
 
     divs = sorted(set(d for d, _ in runs))
@@ -298,21 +345,30 @@ def judge(case, runs, refs):
         for div in divs:
             r = runs[(div, incr)]
             if div != "1" and r["ok"]:
-                cmp_rows(r, base, "step-division-dependence " + tag, "division=%s vs one step, incremental=%s" % (div, incr), False)
+                cmp_rows(("run", div, incr), r, ("run", "1", incr), base, "step-division-dependence " + tag, "division=%s vs one step, incremental=%s" % (div, incr), False)
     # --- independent of INCREMENTAL_REACTIONS (same reporting times)
     if len(incrs) == 2:
         for div in divs:
             a, b = runs[(div, True)], runs[(div, False)]
             if a["ok"] and b["ok"]:
-                cmp_rows(a, b, "incremental-dependence " + tag, "division=%s incremental true vs false" % div, True)
+                cmp_rows(("run", div, True), a, ("run", div, False), b, "incremental-dependence " + tag, "division=%s incremental true vs false" % div, True)
     # --- independent of the integrator: against -runge_kutta 6 on the same division
     if refs:
         for key, r in sorted(runs.items()):
             ref = refs.get(key)
             if r["ok"] and ref is not None and ref["ok"]:
-                cmp_rows(r, ref, "integrator-dependence " + tag.replace("integrator=%s" % lab, "integrator=%s-vs-rk6" % lab),
+                cmp_rows(("run",) + key, r, ("ref",) + key, ref, "integrator-dependence " + tag.replace("integrator=%s" % lab, "integrator=%s-vs-rk6" % lab),
                          "division=%s incremental=%s: %s vs rk6" % (key[0], key[1], integ), True)
     return problems, diags
+
+
+def decade(ratio):
+    """Order of magnitude of an error expressed in units of tol: '1e2..1e3xtol'.  Part of the fingerprint so that a
+    recorded miss of a few hundred tol cannot mask a gross one of the same configuration."""
+    if not ratio < 1e300:
+        return "inf"
+    k = int(math.floor(math.log10(ratio))) if ratio > 0 else 0
+    return "1e%d..1e%dxtol" % (k, k + 1)
 
 
 # ------------------------------------------------------------------------------------------------ case
